@@ -93,9 +93,9 @@ Definition rep_suffix (s : bytes) : res (option (Z * Z) * bytes) :=
         let s := tl s in
         digits s (if hd0 s =? 125 then (-1)%Z else 0%Z)
       else (mn, s) in
-    do s <- adv SBrace s 1;                                           (* ++*pat, whatever is there *)
-    if (NREPS <? mn)%Z || (NREPS <? mx)%Z || ((0 <=? mx)%Z && (mx <? mn)%Z) then Ok (None, s)
-    else Ok (Some (mn, mx), s)
+    (* if the next byte is not '}' or a count is bad: re_bad = 1, return NULL; else step over the '}'  (strict since the fix) *)
+    if negb (hd0 s =? 125) || (NREPS <? mn)%Z || (NREPS <? mx)%Z || ((0 <=? mx)%Z && (mx <? mn)%Z) then Ok (None, s)
+    else Ok (Some (mn, mx), tl s)
   else Ok (Some (mn, mx), s).
 
 Definition set_rep (n : node) (mn mx : Z) : node :=
@@ -168,5 +168,61 @@ Fixpoint rnode_parse (f : nat) (s : bytes) : res (option node * bytes) :=
       end
   end.
 
+(* ---- the flag re_bad: set when a group has nothing inside / is not closed (rnode_grp) or a repetition
+   is malformed (rnode_atom); the parse goes on, regcomp looks at the flag afterwards.  The functions
+   below follow the control flow of the parser and return whether the flag was set during the call. *)
+Definition rep_bad (s : bytes) : bool := match rep_suffix s with Ok (None, _) => true | _ => false end.
+
+Section ParseBad.
+  Variable parse : bytes -> res (option node * bytes).
+  Variable pbad : bytes -> bool.
+
+  Definition rnode_grp_bad (s : bytes) : bool :=
+    if negb (hd0 s =? 40) then false
+    else
+      let s1 := tl s in
+      if negb (hd0 s1 =? 41) then
+        match parse s1 with
+        | Ok (Some _, s2) => pbad s1 || negb (hd0 s2 =? 41)
+        | Ok (None, _) => true
+        | _ => false
+        end
+      else false.
+
+  Definition rnode_atom_bad (s : bytes) : bool :=
+    if (hd0 s =? 0) || (hd0 s =? 124) || (hd0 s =? 41) then false
+    else if hd0 s =? 40 then
+      match rnode_grp parse s with
+      | Ok (Some _, s1) => rnode_grp_bad s || rep_bad s1
+      | Ok (None, _) => rnode_grp_bad s
+      | _ => false
+      end
+    else match ratom_read s with Ok a => rep_bad (snd a) | _ => false end.
+
+  Fixpoint rnode_seq_bad (f : nat) (s : bytes) : bool :=
+    match f with
+    | O => false
+    | S f' =>
+      match rnode_atom parse s with
+      | Ok (Some _, s1) => rnode_atom_bad s || rnode_seq_bad f' s1
+      | Ok (None, _) => rnode_atom_bad s
+      | _ => false
+      end
+    end.
+End ParseBad.
+
+Fixpoint rnode_parse_bad (f : nat) (s : bytes) : bool :=
+  match f with
+  | O => false
+  | S f' =>
+    match rnode_seq (rnode_parse f') f' s with
+    | Ok (_, s1) =>
+      rnode_seq_bad (rnode_parse f') (rnode_parse_bad f') f' s
+      || (if negb (hd0 s1 =? 124) then false else rnode_parse_bad f' (tl s1))
+    | _ => false
+    end
+  end.
+
 Definition parse_fuel (s : bytes) : nat := (2 * length s + 2)%nat.
+Definition parse_bad (s : bytes) : bool := rnode_parse_bad (parse_fuel s) s.
 Definition parse_pat (s : bytes) : res (option node * bytes) := rnode_parse (parse_fuel s) s.
